@@ -56,6 +56,7 @@ static int fetch (SF_CHUNK_ITERATOR *it, unsigned *size, unsigned char **data, l
 	return r ;
 }
 
+static const char *how_names [8] = { "short", "shortf", "int", "intf", "float", "floatf", "double", "doublef" } ;
 /* script: nck chunks (set before audio unless late), optional metadata interleave; then verification */
 static void chunk_case (int mi, Ck *cks, int nck, int interleave, int late, int bufmode, const char *family)
 {	SF_INFO info ; SNDFILE *sf ; char rs [48] ; int rc, accepted [256], nacc = 0, head_ok = 1 ; static short got [NFR * 2] ;
@@ -73,7 +74,23 @@ static void chunk_case (int mi, Ck *cks, int nck, int interleave, int late, int 
 	sf = md_open (&cdev, SFM_WRITE, &info) ;
 	if (! sf) { vl_note ("open refused") ; return ; }
 	if (interleave & 1) INLIB (sf_set_string (sf, SF_STR_TITLE, "before chunks")) ;
-	if (late) { if (vl_write (sf, T_SHORT, 1, audio (), 5) != 5) vl_violation (rt_sig ("%s|write-failed", rs), "audio write failed") ; }
+	if (late)
+	{	/* late = 1 + 2 * type + frames_variant for the eight typed writers, 9 = sf_write_raw: each of them must mark the file as holding audio */
+		int how = late - 1 ; sf_count_t wr ;
+		if (how == 8)
+		{	short rawb [10] ; int swap ; memcpy (rawb, audio (), sizeof (rawb)) ;
+			INLIB (swap = sf_command (sf, SFC_RAW_DATA_NEEDS_ENDSWAP, NULL, 0)) ;
+			if (swap) for (int i = 0 ; i < 10 ; i++) rawb [i] = (short) (((rawb [i] & 0xff) << 8) | ((rawb [i] >> 8) & 0xff)) ;
+			INLIB (wr = sf_write_raw (sf, rawb, sizeof (rawb))) ; wr /= 4 ;
+			}
+		else
+		{	static int ib [10] ; static float fb [10] ; static double db [10] ; const short *a = audio () ; const void *src = a ; int type = how / 2, fv = how & 1 ;
+			for (int i = 0 ; i < 10 ; i++) { ib [i] = a [i] * 65536 ; fb [i] = a [i] / 32768.0f ; db [i] = a [i] / 32768.0 ; }
+			if (type == T_INT) src = ib ; else if (type == T_FLOAT) src = fb ; else if (type == T_DOUBLE) src = db ;
+			wr = vl_write (sf, type, fv, src, fv ? 5 : 10) ; if (! fv) wr /= 2 ;
+			}
+		if (wr != 5) vl_violation (rt_sig ("%s|write-failed", rs), "audio write failed") ;
+		}
 	for (int i = 0 ; i < nck ; i++)
 	{	int r = set_chunk (sf, &cks [i]) ;
 		accepted [i] = (r == 0) ; if (r == 0) nacc ++ ;
@@ -204,9 +221,10 @@ void run_c13 (void)
 				vl_root_count (mnames [mi]) ; chunk_case (mi, cks, 5, il, 0, -1, "interleave") ; free_cks (cks, 5) ; vl_end (1, il) ;
 				}
 		for (int n = 1 ; n <= 3 ; n += 2) for (int big = 0 ; big < 2 ; big++)
-			if (vl_case ("C13 after-audio fmt=%s n=%d len=%d", mnames [mi], n, big ? 6000 : 12))
+		  for (int how = 0 ; how < 9 ; how++)
+			if (vl_case (how == 1 ? "C13 after-audio fmt=%s n=%d len=%d" : "C13 after-audio fmt=%s n=%d len=%d first-write=%s", mnames [mi], n, big ? 6000 : 12, how == 8 ? "raw" : how_names [how]))
 			{	Ck cks [3] ; for (int i = 0 ; i < n ; i++) { char id [8] ; snprintf (id, sizeof (id), "l%03d", i) ; ck_make (&cks [i], id, big ? 6000 : 12, i) ; }	/* 6000: more than the padding in front of CAF audio */
-				vl_root_count (mnames [mi]) ; chunk_case (mi, cks, n, 0, 1, -1, "after-audio") ; free_cks (cks, n) ; vl_end (1, n) ;
+				vl_root_count (mnames [mi]) ; chunk_case (mi, cks, n, 0, 1 + how, -1, "after-audio") ; free_cks (cks, n) ; vl_end (1, n) ;
 				}
 		{	static const long modes [5] = { 0, 1, -2, -1, -3 } ;
 			for (int bm = 0 ; bm < 5 ; bm++) for (int pl = 0 ; pl < 11 ; pl++)
